@@ -6,21 +6,6 @@ work-groups (granule rounding by `units`, one SGPR region per wavefront, one LDS
 wavefronts spread over the SIMDs limited by slots and by VGPR regions per SIMD file). -/
 namespace C09
 
-/-- shapes of the masks of a CU: SGPR units, VGPR units per SIMD, LDS units (`none` = unlimited) -/
-def CU.shapes (cu : CU) : Option Nat × List (Option Nat) × Option Nat :=
-  (cu.smask.shape, cu.vmasks.map Mask.shape, cu.lmask.shape)
-
-/-- **the fit predicate**: `cap` = wavefront slots per SIMD, `sh` = mask shapes in units.
-    * SGPR: `nwf · ⌈s/16⌉ ≤` SGPR units;
-    * LDS: `⌈l/256⌉ ≤` LDS units;
-    * wavefronts: `nwf ≤ Σ_SIMD min(slots, ⌊VGPR units / ⌈v/4⌉⌋)` (`slots` when `v = 0` or unlimited). -/
-def Fits (cap : List Nat) (sh : Option Nat × List (Option Nat) × Option Nat) (d : Dem) : Prop :=
-  fitsUnits sh.1 (d.nwf * units d.s sGran) ∧ fitsUnits sh.2.2 (units d.l lGran) ∧
-  d.nwf ≤ slotSum (fun k => slotsOn (cap.getD k 0) (sh.2.1.getD k none) (units d.v vGran)) cap.length
-
-instance (cap : List Nat) (sh : Option Nat × List (Option Nat) × Option Nat) (d : Dem) :
-    Decidable (Fits cap sh d) := by unfold Fits; infer_instance
-
 theorem mstair_all_free (M : Mask) (h : ∀ m, M = .lim m → m = List.replicate m.length 0) : MStair M 0 := by
   cases M with
   | unl _ => trivial
